@@ -523,6 +523,293 @@ def _ext_body(ctx, cuqi, drive):
             ctx.disagree(base.fkey(ctx, nf, key), desc, out[:300], impl[:300], "dictionary built from integer variable indices differs between model and implementation")
     hist["arviz_int_indices"] = ahist
 
+    # ------------------------------------------------------------------ H. further index kinds of _sub_samples: slice / boolean mask / boolean scalar / 2-D index
+    hcases = []
+    for i in range(220 * K):
+        kind = rng.choice(["default", "cont1d", "imgC", "imgF", "names", "step"])
+        g = base.make_geom(cuqi, rng, kind)
+        rep = rng.choice(["par", "par", "vec", "fun"])
+        if rep == "vec" and not g.has_vec:
+            rep = "fun"
+        N = rng.choice([1, 2, 3, 5, 6, 9])
+        arr = base.initial_array(rng, g, rep, N)
+        base.DTYPE_OF[id(arr)] = rng.choice(["float64", "float64", "int64"]); base.LAYOUT_OF[id(arr)] = rng.choice(["C", "C", "F"])
+        r = rng.random()
+        fld = lambda lo, hi: None if rng.random() < 0.3 else rng.randint(lo, hi)
+        if r < 0.45:
+            t = rng.choice([None, 1, 2, 3, -1, -2, -3, N, -N, 0]) if rng.random() < 0.9 else rng.randint(-N - 2, N + 2)
+            op = ("sls", fld(-N - 2, N + 2), fld(-N - 2, N + 2), t)
+        elif r < 0.7:
+            m = [rng.random() < 0.5 for _ in range(N if rng.random() < 0.85 else rng.choice([max(N - 1, 0), N + 1]))]
+            op = ("mask", m, rng.choice(["list", "array"]) if m else "array")     # an empty python list is an (integer) index list, not a mask
+        elif r < 0.78:
+            op = ("bsc", rng.random() < 0.6)
+        else:
+            R, C = rng.randint(1, 3), rng.randint(1, 3)
+            rows = [[rng.randint(-N, N - 1) for _ in range(C)] for _ in range(R)]
+            q_ = rng.random()
+            if q_ < 0.12:
+                rows[rng.randrange(R)][rng.randrange(C)] = rng.choice([N, -N - 1])
+            elif q_ < 0.2 and R >= 2:
+                rows[-1] = rows[-1] + [0]
+            op = ("grid", rows, rng.choice(["list", "array"]))
+        ops = [op]
+        if op[0] in ("sls", "mask") and rng.random() < 0.5:
+            ops.append(rng.choice([("fv",), ("par",), ("vec",), ("bt", 0, 1), ("bt", 1, 2)]))
+        hcases.append((g, rep, arr, ops))
+
+    def hop_str(op):
+        if op[0] == "sls":
+            return "sls:" + ":".join("N" if v is None else str(v) for v in op[1:4])
+        if op[0] == "mask":
+            return "mask:" + ("".join("1" if b else "0" for b in op[1]) or "_")
+        if op[0] == "bsc":
+            return f"bsc:{int(op[1])}"
+        if op[0] == "grid":
+            return "grid:" + "|".join(",".join(map(str, r_)) for r_ in op[1])
+        return base.op_str(op)
+
+    def apply_h(S, op):
+        if op[0] == "sls":
+            return sub_fn(S, slice(op[1], op[2], op[3]))
+        if op[0] == "mask":
+            return sub_fn(S, list(op[1]) if op[2] == "list" else np.array(op[1], dtype=bool))
+        if op[0] == "bsc":
+            return sub_fn(S, bool(op[1]))
+        if op[0] == "grid":
+            ragged = len({len(r_) for r_ in op[1]}) > 1
+            return sub_fn(S, [list(r_) for r_ in op[1]] if (op[2] == "list" or ragged) else np.array(op[1], dtype=int))
+        return base.apply_op(S, op)
+
+    hlines = []
+    for g, rep, arr, ops in hcases:
+        ip, iv = flags_of(rep, arr)
+        hlines.append(f"seq {g.spec} {shape_str(arr)} {int(ip)} {int(iv)} {qm(base.cols_of(arr))} " + ";".join(hop_str(o) for o in ops))
+    houts = drive(hlines)
+    hh = {}
+    for (g, rep, arr, ops), out in zip(hcases, houts):
+        ip, iv = flags_of(rep, arr)
+        desc = {"geometry": g.spec, "rep": rep, "shape": list(arr.shape), "ops": [hop_str(o) for o in ops], "samples": arr.tolist() if arr.size <= 80 else "array"}
+        ctx.case("index-kinds", {k: desc[k] for k in ("geometry", "rep", "shape", "ops")} | {"h": hash(arr.tobytes()) % 10 ** 6})
+        if sub_fn is None:
+            hist["skipped_missing_helper"] += 1
+            continue
+        mstates = out.split(" | ") if out else []
+        with quiet():
+            cur = Samples(base.impl_arr(arr), geometry=g.obj, is_par=ip, is_vec=iv)
+        for k, op in enumerate(ops):
+            key = f"index:{op[0]}:{g.kind}:{rep}"
+            pre = np.array(cur.samples, copy=True)
+            snap = base.snapshot(cur)
+            R, exc = None, None
+            try:
+                with quiet():
+                    R = apply_h(cur, op)
+            except Exception as e:
+                exc = type(e).__name__
+            bump(hh, op[0] + ":" + (exc or "ok"))
+            st = base.state_str(R, g) if exc is None else "err:" + exc
+            m = mstates[k] if k < len(mstates) else "missing"
+            if st == "nonfinite":
+                break
+            if not base.states_equal(m, st, exact=g.exact, tol=1e-12):
+                nf = len(ctx.failures)
+                n = pre.shape[-1]
+                want = None
+                if op[0] == "sls" and op[3] != 0:
+                    want = list(range(*slice(op[1], op[2], op[3]).indices(n)))
+                elif op[0] == "mask" and len(op[1]) == n:
+                    want = [j for j, b in enumerate(op[1]) if b]
+                if want is not None:
+                    got = None if exc is not None else np.asarray(R.samples)
+                    if got is None or got.shape != pre.shape[:-1] + (len(want),) or not all(np.array_equal(got[..., j], pre[..., wj]) for j, wj in enumerate(want)) \
+                            or (R.is_par, R.is_vec) != (cur.is_par, cur.is_vec):
+                        ctx.fail(key + ":selection", {**desc, "step": k}, f"stored samples {want} in that order, flags kept", st[:200], "_sub_samples(slice / mask) does not return exactly the selected stored samples")
+                    if not base.untouched(cur, snap, strict=False):
+                        ctx.fail(key + ":source", {**desc, "step": k}, "source unchanged", "changed", "_sub_samples modified its source")
+                elif op[0] == "bt" and op[1] >= 0 and op[2] >= 1:
+                    base.oracle_burnthin(ctx, key, {**desc, "step": k}, cur, op[1], op[2], R, exc)
+                elif op[0] in ("fv", "vec", "par") and exc is None:
+                    base.oracle_convert(ctx, key, {**desc, "step": k}, cur, op[0], R, g)
+                ctx.disagree(base.fkey(ctx, nf, key), {**desc, "step": k}, m[:300], st[:300], "state after _sub_samples(slice / mask / boolean / 2-D index) differs between model and implementation")
+                break
+            if exc is not None or op[0] in ("bsc", "grid") or R.samples.shape[-1] == 0:
+                break
+            cur = R
+    hist["index_kinds"] = hh
+
+    # ------------------------------------------------------------------ I. plot_ci: what reaches geometry.plot / geometry.plot_envelope
+    from cuqi.geometry import Image2D as _I2, Continuous2D as _C2
+    ccases = []
+    for i in range(130 * K):
+        kind = rng.choice(["imgC", "imgF", "imgF", "c2d", "cont1d", "default", "step", "map-aff-img", "discrete"])
+        g = base.make_geom(cuqi, rng, kind)
+        rep = rng.choice(["par", "par", "vec", "fun"])
+        if rep == "vec" and not g.has_vec:
+            rep = "fun"
+        N = rng.choice([1, 2, 3, 4, 7, 10])
+        shape = {"par": (g.par_dim,), "vec": (g.funvec_dim,), "fun": g.fun_shape}[rep]
+        arr = np.array([rng.randint(-9, 9) for _ in range(int(np.prod(shape)) * N)], dtype=float).reshape(tuple(shape) + (N,))
+        p = rng.choice([95, 50, 0, 100, 0.5, 68, 99.9, 150, -250]) if rng.random() < 0.8 else rng.uniform(0, 100)
+        opt = {"exact": rng.random() < 0.3, "kw_is_par": rng.random() < 0.08, "pe_is_par": rng.random() < 0.08,
+               "kw_pp": rng.choice([None, None, None, True, False]), "pe_pp": rng.choice([None, None, None, True, False]), "pe_extra": rng.random() < 0.3}
+        ccases.append((g, rep, arr, p, opt))
+    cimpl, clines = [], []
+    for g, rep, arr, p, opt in ccases:
+        ip, iv = flags_of(rep, arr)
+        with quiet():
+            S = Samples(np.array(arr), geometry=g.obj, is_par=ip, is_vec=iv)
+            geom = S.geometry
+        calls = []
+        geom.plot = lambda values, *a, _c=calls, **kw: (_c.append(("P", np.array(values, dtype=float, copy=True), dict(kw))), [None])[1]
+        geom.plot_envelope = lambda lo, hi, *a, _c=calls, **kw: (_c.append(("E", np.array(lo, dtype=float, copy=True), np.array(hi, dtype=float, copy=True), dict(kw))), [None])[1]
+        kw, pe = {}, {}
+        if opt["exact"]:
+            kw["exact"] = np.ones(g.par_dim if ip else int(np.prod(g.fun_shape)))
+        if opt["kw_is_par"]:
+            kw["is_par"] = ip
+        if opt["kw_pp"] is not None:
+            kw["plot_par"] = opt["kw_pp"]
+        if opt["pe_is_par"]:
+            pe["is_par"] = ip
+        if opt["pe_pp"] is not None:
+            pe["plot_par"] = opt["pe_pp"]
+        if opt["pe_extra"]:
+            pe["facecolor"] = "r"
+        if pe or opt["pe_extra"]:
+            kw["plot_envelope_kwargs"] = pe
+        exc = None
+        try:
+            with quiet():
+                S.plot_ci(p, **kw)
+        except Exception as e:
+            exc = type(e).__name__
+        finally:
+            for nm in ("plot", "plot_envelope"):
+                try:
+                    delattr(geom, nm)
+                except AttributeError:
+                    pass
+        cimpl.append((exc, calls))
+        g2d = type(geom) is _I2 or type(geom) is _C2
+        ob = lambda v: "n" if v is None else str(int(v))
+        clines.append(f"plotci {g.spec} {shape_str(arr)} {int(ip)} {int(iv)} {qm(base.cols_of(arr))} {q(p)} {int(opt['exact'])} {int(opt['kw_is_par'])} {int(opt['pe_is_par'])} {ob(opt['kw_pp'])} {ob(opt['pe_pp'])} {int(g2d)}")
+    plt.close("all")
+    couts = drive(clines)
+    chist = {}
+    for (g, rep, arr, p, opt), (exc, calls), out in zip(ccases, cimpl, couts):
+        ip, iv = flags_of(rep, arr)
+        desc = {"geometry": g.spec, "rep": rep, "shape": list(arr.shape), "percent": p, "options": opt, "samples": arr.tolist() if arr.size <= 80 else "array"}
+        ctx.case("plot-ci", {k: desc[k] for k in ("geometry", "rep", "shape", "percent", "options")} | {"h": hash(arr.tobytes()) % 10 ** 6})
+        key = f"plotci:{g.kind}:{rep}"
+        nf = len(ctx.failures)
+        N = arr.shape[-1]
+        ok_model = True
+        if exc is not None:
+            bump(chist, "refused:" + exc)
+            ok_model = (out == "err:" + exc)
+            impl = "err:" + exc
+        else:
+            mcalls = out.split(" | ") if not out.startswith("err") else None
+            impl = " | ".join(c[0] + " " + " ".join(str(np.asarray(x).reshape(-1).tolist())[:60] for x in c[1:-1]) + " " + str({k: v for k, v in c[-1].items() if k in ("is_par", "plot_par")}) for c in calls)
+            bump(chist, ("2d" if calls and calls[0][0] == "P" else "envelope") + (":exact" if opt["exact"] else ""))
+            if mcalls is None or len(mcalls) != len(calls):
+                ok_model = False
+            else:
+                for mc, c in zip(mcalls, calls):
+                    t_ = mc.split(" ")
+                    if t_[0] == "P" and c[0] == "P":
+                        flat = [float(x) for x in c[1].reshape(-1)]
+                        ipk = c[2].get("is_par", None)
+                        ok_model &= len(pv(t_[1])) == len(flat) and all(close(a, float(b), 1e-10) for a, b in zip(flat, pv(t_[1]))) and t_[2] == ("n" if ipk is None else str(int(bool(ipk))))
+                    elif t_[0] == "X" and c[0] == "P":
+                        ok_model &= t_[1] == str(int(bool(c[2].get("is_par")))) and t_[2] == str(int(bool(c[2].get("plot_par")))) and "is_par" in c[2] and "plot_par" in c[2]
+                    elif t_[0] == "E" and c[0] == "E":
+                        lo_, hi_ = [float(x) for x in c[1].reshape(-1)], [float(x) for x in c[2].reshape(-1)]
+                        ok_model &= (len(pv(t_[1])) == len(lo_) and all(close(a, float(b), 1e-10) for a, b in zip(lo_, pv(t_[1]))) and all(close(a, float(b), 1e-10) for a, b in zip(hi_, pv(t_[2])))
+                                     and t_[3] == str(int(bool(c[3].get("is_par")))) and t_[4] == str(int(bool(c[3].get("plot_par")))))
+                    else:
+                        ok_model = False
+            # oracle (every accepted call): the bounds handed to the geometry are the exact per-coordinate percentiles of the stored samples
+            pf = Fraction(float(p))
+            if 0 <= pf <= 100:
+                lbq = (100 - pf) / 2
+                chains = arr.reshape(-1, N)
+                wl = [float(base.frac_percentile(ch, lbq)) for ch in chains]
+                wu = [float(base.frac_percentile(ch, 100 - lbq)) for ch in chains]
+                env = [c for c in calls if c[0] == "E"]
+                if env:
+                    glo, gup = env[0][1].reshape(-1), env[0][2].reshape(-1)
+                else:
+                    ps = [c for c in calls if c[0] == "P" and "is_par" not in c[2]]
+                    glo, gup = (ps[-1][1].reshape(-1), ps[-2][1].reshape(-1)) if len(ps) >= 3 else ([], [])
+                if len(glo) != len(wl) or not all(close(a, b, 1e-10) for a, b in zip(glo, wl)) or not all(close(a, b, 1e-10) for a, b in zip(gup, wu)):
+                    ctx.fail(key + ":bounds", desc, [wl[:6], wu[:6]], [list(map(float, glo))[:6], list(map(float, gup))[:6]], "the bounds plot_ci hands to the geometry are not the per-coordinate percentiles of the stored samples")
+        if not ok_model:
+            ctx.disagree(base.fkey(ctx, nf, key), desc, out[:300], impl[:300], "calls made by plot_ci on the geometry differ between model and implementation")
+    hist["plot_ci"] = chist
+
+    # ------------------------------------------------------------------ J. JointSamples whose members have different numbers of samples
+    from cuqi.samples import JointSamples
+    jc = []
+    for i in range(90 * K):
+        lens = rng.choice([(3, 7), (7, 3), (2, 5, 9), (6, 12), (1, 4), (5, 5, 8), (9, 2, 4)])
+        members = []
+        for j, n_ in enumerate(lens):
+            g = base.make_geom(cuqi, rng, rng.choice(["default", "cont1d", "names", "one", "imgF"]))
+            a = base.initial_array(rng, g, "par", n_)
+            base.DTYPE_OF[id(a)] = "float64"; base.LAYOUT_OF[id(a)] = "C"
+            members.append((["x", "d", "s"][j], g, a))
+        b = rng.choice([0, 1, min(lens) - 1, min(lens), min(lens) + 1, max(lens) - 1, max(lens)])
+        jc.append((members, ("bt", max(b, 0), rng.choice([1, 2, 3, max(lens)]))))
+    jl = []
+    for members, op in jc:
+        toks, toks2 = ["joint", str(op[1]), str(op[2])], ["jointstat"]
+        for k, g, a in members:
+            toks += [k, g.spec, str(a.shape[0]), "1", "1", qm(base.cols_of(a))]
+            toks2 += [k, g.spec, str(a.shape[0]), "1", "1", qm(base.cols_of(a))]
+        jl += [" ".join(toks), " ".join(toks2)]
+    jo = drive(jl)
+    jh = {}
+    for ci, (members, op) in enumerate(jc):
+        o_bt, o_st = jo[2 * ci], jo[2 * ci + 1]
+        desc = {"members": [(k, g.spec, list(a.shape)) for k, g, a in members], "op": base.op_str(op), "samples": {k: a.tolist() for k, g, a in members}}
+        ctx.case("joint-lengths", {"members": desc["members"], "op": desc["op"], "h": hash(b"".join(a.tobytes() for _, _, a in members)) % 10 ** 6})
+        with quiet():
+            J = JointSamples()
+            for k, g, a in members:
+                J[k] = Samples(np.array(a), geometry=g.obj)
+        key = "joint:lengths"
+        nf = len(ctx.failures)
+        try:
+            with quiet():
+                R = J.burnthin(op[1], op[2])
+            impl = " | ".join(f"{k}:{base.state_str(R[k], g)}" for (k, g, a) in members if k in R) or "_"
+        except Exception as e:
+            R, impl = None, "err:" + type(e).__name__
+        bump(jh, "refused" if R is None else "ok")
+        if R is not None:
+            for k, g, a in members:
+                base.oracle_burnthin(ctx, key + ":member", {**desc, "member": k}, J[k], op[1], op[2], R.get(k), None if k in R else "missing")
+        elif all(op[1] < a.shape[-1] for _, _, a in members):
+            ctx.fail(key + ":refused", desc, "member-wise result", impl, "JointSamples.burnthin refuses although every member has more samples than the burn-in")
+        if impl != o_bt:
+            ctx.disagree(base.fkey(ctx, nf, key), desc, o_bt[:300], impl[:300], "joint burnthin with members of different lengths differs between model and implementation")
+        # per-member number of samples and statistics
+        nf = len(ctx.failures)
+        parts = o_st.split(" | ")
+        good = len(parts) == len(members)
+        for (k, g, a), part in zip(members, parts):
+            f_ = part.split(":")
+            with quiet():
+                mean, var, med = J[k].mean(), J[k].variance(), J[k].median()
+            if not (good and f_[0] == k and int(f_[1]) == int(J[k].Ns) and all(close(x, float(y), 1e-12) for x, y in zip(np.reshape(mean, -1), pv(f_[2])))
+                    and all(close(x, float(y), 1e-11) for x, y in zip(np.reshape(var, -1), pv(f_[3]))) and all(close(x, float(y), 1e-12) for x, y in zip(np.reshape(med, -1), pv(f_[4])))):
+                base.oracle_stats(ctx, key + ":stats", {**desc, "member": k}, np.array(a, dtype=float), 95, (mean, med, var, J[k].std(), None, None))
+                ctx.disagree(base.fkey(ctx, nf, key + ":stats"), {**desc, "member": k}, part[:200], str([np.asarray(mean).tolist(), int(J[k].Ns)])[:200], "per-member statistics / Ns differ between model and implementation")
+                break
+    hist["joint_different_lengths"] = jh
+
     # ------------------------------------------------------------------ G. compute_rhat: argument forms and numpy broadcasting of the chains
     real_arviz = smod.arviz
     if real_arviz is None:
